@@ -5,6 +5,7 @@
 #  * public domain *
 #
 
+from itertools import islice
 from typing import List
 
 
@@ -30,9 +31,14 @@ def rldecode(data: bytes) -> bytes:
             break
 
         if 0 <= length < 128:
-            decoded_array.extend((next(data_iter) for _ in range(length + 1)))
+            # a run that is cut short by the end of the data is copied as
+            # far as it goes
+            decoded_array.extend(islice(data_iter, length + 1))
 
         if length > 128:
-            run = [next(data_iter)] * (257 - length)
+            byte = next(data_iter, None)
+            if byte is None:
+                break
+            run = [byte] * (257 - length)
             decoded_array.extend(run)
     return bytes(decoded_array)
